@@ -117,6 +117,10 @@ def oracle(sc, res, rep, case):
             if tok != want_tok:
                 bad("answer-content", f"instance {i} answered with {tok[:140]}, configured {want_tok[:140]}")
             cand = [x for x in expected if not x["done"] and x["inst"] == i and x["dest"] == dest and x["lo"] <= t <= x["hi"]]
+            # several requests may be open at once (e.g. a unicast one inside a multicast window): the answer belongs to
+            # the request with the tightest window (unicast answers leave at one instant), then to the oldest
+            # requests made before a stop of the instance are void: prefer the ones of the current incarnation
+            cand.sort(key=lambda x: (x["epoch"] != epoch[i], x["hi"] - x["lo"], x["t"]))
             if not cand:
                 late = [x for x in expected if not x["done"] and x["inst"] == i and x["dest"] == dest]
                 if late:
@@ -158,7 +162,7 @@ def run(ctx: core.Ctx) -> core.Report:
                 "multicast, at adversarially chosen instants of the offer lifecycle (initial wait, repetition, cyclic, stopped, "
                 "restarted), 1..3 instances, request-response windows [0,0] [10,10] [10,50] [0,25], collection timeout 0/5/15; "
                 "queue_send wrapped; every step compared with the Lean model")
-    stateful.run_scenarios(ctx, rep, make, oracle, ctx.n(80, 1500), "c12")
+    stateful.run_scenarios(ctx, rep, make, oracle, ctx.n(200, 3000), "c12")
     return rep
 
 
